@@ -454,13 +454,9 @@ func checkC20(c *core.Ctx) {
 		c.Add("tlc_behaviours_generated", int64(len(behs)))
 		var mu sync.Mutex
 		var wg sync.WaitGroup
-		sem := make(chan struct{}, 8)
-		for bi, b := range behs {
-			wg.Add(1)
-			sem <- struct{}{}
-			go func(bi int, b *schedBehaviour) {
-				defer wg.Done()
-				defer func() { <-sem }()
+		var again []int // behaviours during whose run the canary timer was late: run once more, fewer at a time
+		replay := func(bi int, b *schedBehaviour, last bool) {
+			{
 				b.ArmOnDeath = bi%3 == 1
 				ev, healthy, model, real, err := runSchedBehaviour(b, false)
 				mu.Lock()
@@ -469,9 +465,13 @@ func checkC20(c *core.Ctx) {
 					c.Broken("scheduler replay %s#%d: %v", gen, bi, err)
 					return
 				}
+				if !healthy && !last {
+					again = append(again, bi)
+					return
+				}
 				c.Add("evaluations", 1)
 				if !healthy {
-					unhealthy++ // timers were late on this machine during the run: nothing is concluded from it
+					unhealthy++ // timers were late on this machine during both runs: nothing is concluded from it
 					return
 				}
 				for tok, n := range model {
@@ -484,7 +484,30 @@ func checkC20(c *core.Ctx) {
 					cls = "sched-colon-in-name"
 				}
 				traces = append(traces, &Trace{Events: ev, Class: cls, Name: fmt.Sprintf("%s#%d", gen, bi), Scenario: b})
+			}
+		}
+		sem := make(chan struct{}, 8)
+		for bi, b := range behs {
+			wg.Add(1)
+			sem <- struct{}{}
+			go func(bi int, b *schedBehaviour) {
+				defer wg.Done()
+				defer func() { <-sem }()
+				replay(bi, b, false)
 			}(bi, b)
+		}
+		wg.Wait()
+		// a loaded machine: the runs that could not be judged are repeated two at a time
+		sem2 := make(chan struct{}, 2)
+		c.Add("runs_repeated_timers_late", int64(len(again)))
+		for _, bi := range again {
+			wg.Add(1)
+			sem2 <- struct{}{}
+			go func(bi int) {
+				defer wg.Done()
+				defer func() { <-sem2 }()
+				replay(bi, behs[bi], true)
+			}(bi)
 		}
 		wg.Wait()
 	}
